@@ -98,8 +98,11 @@ Qed.
 #[global] Hint Resolve g_le_refl g_le_set_cur g_le_set_tags g_le_rm_tag g_le_add_log g_le_add_inst : gle.
 
 (* the helpers only append to the log *)
+Lemma op_done_k_le k t g l r hs nr es g' l' es' : op_done_k k t g l r hs nr es = Some (g', l', es') -> g_le g g'.
+Proof. unfold op_done_k. intros H; inversion H; subst. auto with gle. Qed.
+
 Lemma op_done_le t g l r hs nr es g' l' es' : op_done t g l r hs nr es = Some (g', l', es') -> g_le g g'.
-Proof. unfold op_done. intros H; inversion H; subst. auto with gle. Qed.
+Proof. apply op_done_k_le. Qed.
 
 Lemma ooc_tail_le P t g l o es g' l' es' : ooc_tail P t g l o es = Some (g', l', es') -> g_le g g'.
 Proof.
@@ -116,8 +119,8 @@ Proof.
   destruct (create_precheck _ _) in H; [eapply op_done_le; eauto|inversion H; subst; auto with gle].
 Qed.
 
-Lemma call_succeeds_le t g l i c nr es g' l' es' : call_succeeds t g l i c nr es = Some (g', l', es') -> g_le g g'.
-Proof. apply op_done_le. Qed.
+Lemma call_succeeds_le k t g l i c nr es g' l' es' : call_succeeds k t g l i c nr es = Some (g', l', es') -> g_le g g'.
+Proof. apply op_done_k_le. Qed.
 
 Lemma wait_retry_le P t g l es g' l' es' : wait_retry P t g l es = Some (g', l', es') -> g_le g g'.
 Proof.
@@ -189,4 +192,197 @@ Proof.
        | context [match filter ?f ?l with _ => _ end] => destruct (filter f l)
        end; try discriminate.
   all: try (le_finish H).
+Qed.
+
+(* ------------------------------------------------------------------------------------------ *)
+(* 2. Who obtains a service: every successful call refers to a completely initialised instance  *)
+(*    and carries the creator's settings; every instance has at most one successful creator.    *)
+(* ------------------------------------------------------------------------------------------ *)
+Definition final (g : gst) (j : nat) : Prop :=
+  exists x, get_inst g j = Some x /\ i_dy x = DFinal.
+
+(* a creator between create_locked and the final permission of the dynamic config *)
+Definition creating (p : pc) : option nat :=
+  match p with
+  | CStChmod1 _ i | CStWrite _ i | CStChmod2 _ i | CRes _ i | CDyOpen _ i | CDyTrunc _ i | CDyFstat _ i
+  | CDyInit _ i | CDyChmod _ i => Some i
+  | _ => None
+  end.
+
+Definition LInv (g : gst) (t : nat) (l : lst) : Prop :=
+  match at_pc l with
+  | OReg j _ => final g j
+  | p => match creating p with
+         | Some i => exists x, get_inst g i = Some x /\ i_owner x = t /\ i_dy x <> DFinal
+         | None => True
+         end
+  end.
+
+Definition plain_pc (p : pc) : Prop :=
+  match p with OReg _ _ => False | p => creating p = None end.
+
+Lemma plain_LInv g t l : plain_pc (at_pc l) -> LInv g t l.
+Proof. unfold plain_pc, LInv. destruct (at_pc l); cbn; intros H; try discriminate; auto; contradiction. Qed.
+
+Definition ok_entry (e : nat * opkind * result) : Prop := match e with (_, _, ROk _ _) => True | _ => False end.
+
+(* the helper results: no successful entry is logged, the instance table is untouched, the new pc is plain *)
+Definition quiet (g g' : gst) (l' : lst) : Prop :=
+  insts g' = insts g /\
+  (forall e, In e (glog g') -> ok_entry e -> In e (glog g)) /\
+  plain_pc (at_pc l').
+
+Lemma in_snoc_ok g e0 e : In e (glog g ++ [e0]) -> ok_entry e -> ~ ok_entry e0 -> In e (glog g).
+Proof. intros H O N. apply in_app_or in H. destruct H as [H|[H|[]]]; auto. subst. contradiction. Qed.
+
+Lemma op_done_quiet t g l r hs nr es g' l' es' :
+  op_done t g l r hs nr es = Some (g', l', es') -> ~ ok_entry (t, cur_kind l, r) -> quiet g g' l'.
+Proof.
+  unfold op_done, op_done_k. intros H N; inversion H; subst. split; [reflexivity|]. split; [|cbn; auto].
+  intros e Hin O. cbn [glog add_log] in Hin. eapply in_snoc_ok; eauto.
+Qed.
+
+Ltac quiet_plain := split; [reflexivity|split; [auto|cbn; auto]].
+
+Lemma ooc_tail_quiet P t g l o es g' l' es' : ooc_tail P t g l o es = Some (g', l', es') -> quiet g g' l'.
+Proof.
+  unfold ooc_tail. destruct (Nat.leb _ _); intros H.
+  - eapply op_done_quiet; eauto. destruct (Nat.ltb _ _); cbn; auto. destruct (last _ _) as [[? ?]|]; cbn; auto.
+  - inversion H; subst. quiet_plain.
+Qed.
+
+Lemma call_fails_quiet P t g l k e es g' l' es' : call_fails P t g l k e es = Some (g', l', es') -> quiet g g' l'.
+Proof.
+  unfold call_fails. destruct (in_ooc l) as [o|]; [|intros H; eapply op_done_quiet; eauto; cbn; auto].
+  destruct k; destruct e; intros H;
+    try (eapply op_done_quiet; [eassumption|cbn; auto]; fail); try (eapply ooc_tail_quiet; eassumption).
+  destruct (create_precheck _ _) in H; [eapply op_done_quiet; eauto; cbn; auto|inversion H; subst; quiet_plain].
+Qed.
+
+Lemma wait_retry_quiet P t g l es g' l' es' : wait_retry P t g l es = Some (g', l', es') -> quiet g g' l'.
+Proof.
+  unfold wait_retry. destruct (Nat.leb _ _); intros H; [eapply call_fails_quiet; eauto|inversion H; subst; quiet_plain].
+Qed.
+
+Lemma run_cont_quiet P t g l c es g' l' es' : run_cont P t g l c es = Some (g', l', es') -> quiet g g' l'.
+Proof.
+  unfold run_cont. destruct c; intros H; [eapply call_fails_quiet|eapply op_done_quiet|eapply wait_retry_quiet]; eauto.
+Qed.
+
+Lemma fail_with_tag_quiet P t g l own c es g' l' es' : fail_with_tag P t g l own c es = Some (g', l', es') -> quiet g g' l'.
+Proof.
+  unfold fail_with_tag. destruct own; intros H; [inversion H; subst; quiet_plain|eapply run_cont_quiet; eauto].
+Qed.
+
+Lemma avail_hangs_quiet P t g l es g' l' es' : avail_hangs P t g l es = Some (g', l', es') -> quiet g g' l'.
+Proof.
+  unfold avail_hangs. destruct (cur_kind l); intros H; try (eapply wait_retry_quiet; eassumption); eapply call_fails_quiet; eauto.
+Qed.
+
+Lemma avail_none_quiet P t g l es g' l' es' : avail_none P t g l es = Some (g', l', es') -> quiet g g' l'.
+Proof.
+  unfold avail_none. destruct (cur_kind l); intros H; try (eapply call_fails_quiet; eassumption); inversion H; subst; quiet_plain.
+Qed.
+
+Lemma start_call_quiet P t g l r k o g' l' es' : start_call P t g l r k o = Some (g', l', es') -> quiet g g' l'.
+Proof.
+  unfold start_call. destruct k; intros H; try (inversion H; subst; quiet_plain; fail).
+  destruct (create_precheck _ _) in H; [eapply op_done_quiet; eauto; cbn; auto|inversion H; subst; quiet_plain].
+Qed.
+
+Lemma get_set_inst_same g j y x0 : get_inst g j = Some x0 -> get_inst (set_inst g j y) j = Some y.
+Proof. unfold get_inst, set_inst; cbn [insts]. apply nth_error_upd_same. Qed.
+
+Lemma get_set_inst_other g j y i : i <> j -> get_inst (set_inst g j y) i = get_inst g i.
+Proof. intros H. unfold get_inst, set_inst; cbn [insts]. apply nth_error_upd_other. auto. Qed.
+
+Lemma get_add_inst_old g y i x : get_inst g i = Some x -> get_inst (add_inst g y) i = Some x.
+Proof.
+  unfold get_inst, add_inst; cbn [insts]. intros H. rewrite nth_error_app1; auto. apply nth_error_Some. congruence.
+Qed.
+
+Lemma get_add_inst_new g y : get_inst (add_inst g y) (length (insts g)) = Some y.
+Proof. unfold get_inst, add_inst; cbn [insts]. rewrite nth_error_app2; [|lia]. now rewrite Nat.sub_diag. Qed.
+
+Lemma quiet_get g g' l' i : quiet g g' l' -> get_inst g' i = get_inst g i.
+Proof. intros (E & _). unfold get_inst. now rewrite E. Qed.
+
+(* what a step may do to an instance that is not final: only the creator's last step finalises it *)
+Definition keeps_unfinal (g g' : gst) (l : lst) : Prop :=
+  forall i x, get_inst g i = Some x -> i_dy x <> DFinal ->
+    (exists own, at_pc l = CDyChmod own i) \/ (exists x', get_inst g' i = Some x' /\ i_owner x' = i_owner x /\ i_dy x' <> DFinal).
+
+Lemma keeps_same g g' l : (forall i, get_inst g' i = get_inst g i) -> keeps_unfinal g g' l.
+Proof. intros E i x H N. right. exists x. rewrite E. auto. Qed.
+
+Lemma keeps_set_inst g j y x0 l :
+  get_inst g j = Some x0 -> i_owner y = i_owner x0 -> (i_dy x0 <> DFinal -> i_dy y <> DFinal) ->
+  keeps_unfinal g (set_inst g j y) l.
+Proof.
+  intros H O D i x Hi N. right. destruct (Nat.eq_dec i j) as [->|Hne].
+  - exists y. rewrite (get_set_inst_same _ _ _ _ H). assert (x = x0) by congruence. subst. auto.
+  - exists x. rewrite get_set_inst_other; auto.
+Qed.
+
+Lemma keeps_trans_quiet g g0 g' l l' : keeps_unfinal g g0 l -> quiet g0 g' l' -> keeps_unfinal g g' l.
+Proof.
+  intros K Q i x H N. destruct (K i x H N) as [L|(x' & A & B)]; [left; auto|right].
+  exists x'. rewrite (quiet_get _ _ _ _ Q). auto.
+Qed.
+
+Ltac quiet_of H :=
+  first [ eapply call_fails_quiet in H | eapply wait_retry_quiet in H
+        | eapply run_cont_quiet in H | eapply fail_with_tag_quiet in H | eapply avail_hangs_quiet in H | eapply avail_none_quiet in H
+        | eapply start_call_quiet in H | eapply ooc_tail_quiet in H
+        | (eapply op_done_quiet in H; [|cbn; tauto]) ].
+
+Ltac step_cases H :=
+  repeat match type of H with
+       | context [match prog ?l with _ => _ end] => destruct (prog l)
+       | context [match ?o with OCreate _ => _ | _ => _ end] => destruct o
+       | context [match nth_error (handles ?l) ?k with _ => _ end] => destruct (nth_error (handles l) k) as [[? ?]|]
+       | context [match cur ?g with _ => _ end] => destruct (cur g)
+       | context [match get_inst ?g ?i with _ => _ end] => let E := fresh "E" in destruct (get_inst g i) eqn:E
+       | context [if ?b then _ else _] => let Eb := fresh "Eb" in destruct b eqn:Eb
+       | context [match cur_kind ?l with _ => _ end] => destruct (cur_kind l)
+       | context [match open_check ?a ?b ?c with _ => _ end] => destruct (open_check a b c)
+       | context [match i_dy ?x with _ => _ end] => let E := fresh "Edy" in destruct (i_dy x) eqn:E
+       | context [match i_st ?x with _ => _ end] => let E := fresh "Est" in destruct (i_st x) eqn:E
+       | context [match filter ?f ?l with _ => _ end] => destruct (filter f l)
+       end; try discriminate.
+
+Ltac keeps_inst :=
+  match goal with
+  | E : get_inst ?g ?j = Some ?x0 |- keeps_unfinal ?g (set_inst ?g ?j _) _ =>
+    apply (keeps_set_inst g j _ x0); [exact E|reflexivity|
+      unfold upd_st, upd_dy, upd_res, upd_reg; cbn;
+      repeat match goal with Ed : i_dy _ = _ |- _ => rewrite Ed end; cbn; congruence]
+  end.
+
+Ltac keeps_basic :=
+  first [ solve [apply keeps_same; intros; reflexivity]
+        | solve [keeps_inst]
+        | solve [apply keeps_same; intros; unfold get_inst; reflexivity] ].
+
+Lemma step_keeps_unfinal P t g l g' l' es : step P t g l = Some (g', l', es) -> keeps_unfinal g g' l.
+Proof.
+  unfold step, with_inst. intros H.
+  destruct (at_pc l) eqn:Epc.
+  all: step_cases H.
+  all: try (inversion H; subst; keeps_basic).
+  all: try (quiet_of H; eapply keeps_trans_quiet; [|exact H]; keeps_basic).
+  all: try (unfold call_succeeds, op_done_k in H; inversion H; subst; clear H).
+  - (* OReg registers *)
+    intros i0 x Hi N. right. destruct (Nat.eq_dec i0 j) as [->|Hne].
+    + eexists. split; [unfold get_inst, add_log; cbn [insts]; apply (get_set_inst_same g j _ i E)|].
+      assert (x = i) by congruence. subst. cbn. auto.
+    + exists x. split; auto. unfold get_inst, add_log; cbn [insts]. fold (get_inst (set_inst g j (upd_reg i false (i_members i ++ [t]))) i0).
+      rewrite get_set_inst_other; auto.
+  - (* CStOpen allocates a fresh instance *)
+    intros i0 x Hi N. right. exists x. split; auto. unfold set_cur, get_inst; cbn [insts].
+    apply (get_add_inst_old g _ i0 x Hi).
+  - (* CDyChmod finalises its own instance *)
+    intros i1 x Hi N. destruct (Nat.eq_dec i1 i) as [->|Hne]; [left; eauto|right].
+    exists x. split; auto. unfold get_inst, add_log; cbn [insts]. fold (get_inst (set_inst g i (upd_dy i0 DFinal true)) i1).
+    rewrite get_set_inst_other; auto.
 Qed.
